@@ -306,6 +306,9 @@ func runC03(c *Ctx) {
 				return len(fc.Call.Args) == 1 && elem != nil && fc.Call.Args[0] == elem
 			})
 			c.Check(okFilter, "R3.refresh", "refresh|removal only when the handler's filter accepts the identity", w.Pos(cv.Pos()), "must-fact opt.KeyRefreshFilter(k) == true", "an identity can be removed without the must-fact that the handler's filter selected that very identity")
+			// a refused removal fails the refresh (otherwise the old generation stays next to the new one and the run
+			// still reports success)
+			c.Check(w.ErrEdgeEnds(refreshFn, ssa.Value(cv)), "R3.refresh", "refresh|a failed removal fails the refresh", w.Pos(cv.Pos()), "wherever Remove's error is non-nil control only reaches returns of a non-nil error", "the error of agent.Remove is dropped or only logged: an identity the agent refused to remove stays while the run goes on to add the new generation")
 		}
 		c.Floor("R3.refresh", nRem, 1, "agent.Remove in the refresh step")
 		c.Check(len(invokeOf(refreshFn, "RemoveAll")) == 0, "R3.refresh", "refresh|no RemoveAll", w.FnPos(refreshFn), "none", "the refresh step wipes the whole agent")
@@ -393,6 +396,35 @@ func runC03(c *Ctx) {
 			}
 		}
 		c.Check(ok && w.ErrEdgeEnds(add, refresh), "R4.order", "AddCertsToAgent|refresh precedes every add and its error is returned", w.Pos(refresh.Pos()), "dominates with must-fact err == nil", "certificates can be added although the refresh did not run or failed")
+	}
+	// a run that fails while signing leaves the previous generation in place: the certificate step (which starts by
+	// removing it) is not reachable once a Sign has failed, nor once Generate has failed
+	if m.Run != nil && m.AddCall != nil && m.SignCall != nil {
+		run := m.Run
+		rf := w.Facts(run)
+		for name, ev := range map[string]ssa.Value{"Signer.Sign": m.SignErr, "Generate": m.GenErr} {
+			if ev == nil {
+				c.Unresolved("R4.order", "error result of "+name+" in gensign.Run")
+				continue
+			}
+			evFn := ev.(ssa.Instruction).Parent()
+			okStop := true
+			nErr := 0
+			for _, b := range evFn.Blocks {
+				if n, k := rf.KnownNil(b, ev); !(k && !n) || len(b.Instrs) == 0 {
+					continue
+				}
+				nErr++
+				if evFn == m.AddCall.Parent() {
+					if ReachableAvoiding(b.Instrs[0], nil)(m.AddCall) {
+						okStop = false
+					}
+				} else if !leadsOnlyToReturns(b, func(x *ssa.BasicBlock) bool { n2, k2 := rf.KnownNil(x, ev); return k2 && !n2 }) || !w.failurePropagates(run, evFn) {
+					okStop = false
+				}
+			}
+			c.Check(okStop && nErr > 0, "R4.order", "Run|no certificate step after a failed "+name, w.Pos(m.AddCall.Pos()), "from the error edge of "+name+" AddCertsToAgent is unreachable", "after "+name+" failed the run can still reach AddCertsToAgent, whose first step removes the previously provisioned certificates: a failed run is destructive")
+		}
 	}
 	for _, h := range m.Handlers {
 		gen := w.methodOfNamed(h, "Generate")
